@@ -47,6 +47,8 @@ class FS:
         self.fail_exc = None         # factory of the exception to raise (default OSError ENOSPC)
         self.on_boundary = None      # callable(index, label) | None
         self.failed = None           # index of the effect that was made to fail
+        self.fail_gap = None         # int | SInt | None: distance of a second failing effect from the first
+        self.failed2 = None
         self.open_handles: list = []
         self.mkdir_p(cwd)
         self.tmp_counter = 0
@@ -134,6 +136,10 @@ class FS:
                 if self.fail_exc is not None:
                     raise self.fail_exc(i, label)
                 raise OSError(errno.ENOSPC, f"injected failure of effect {i} ({label})")
+        elif self.fail_gap is not None and self.failed is not None and self.failed2 is None:
+            if self.failed + self.fail_gap == i:   # a second failure `gap` effects after the first one (fault sequences)
+                self.failed2 = i
+                raise OSError(errno.EIO, f"second injected failure, effect {i} ({label})")
 
     # ---- os ----------------------------------------------------------------------------------
     def exists(self, p):
